@@ -198,6 +198,9 @@ func main() {
 		}
 	}
 
+	if viol == nil && ev.runs == 0 {
+		trouble("no run was executed within the budget: the check decided nothing")
+	}
 	exit := 0
 	if viol != nil {
 		exit = handleViolation(viol, violPhase, scratch, ev)
